@@ -1,5 +1,995 @@
-//! Slices that need their own drivers (sets, rayon, serde, zero-sized elements, fault injection).
-pub fn cmd_extra(_args: &[String]) {
-    eprintln!("not yet");
-    std::process::exit(2);
+//! Slices with their own drivers: zero-sized elements, HashSet algebra, rayon, serde, fault
+//! injection.  Each writes a JSON report {evaluations, distinct_nontrivial, fails:[{prop,what,replay}], samples}.
+use crate::alloc;
+use crate::elem::*;
+use crate::gen::Rng;
+use crate::ops::{install_panic_hook, LAST_PANIC};
+use griddle::hash_map::Entry;
+use griddle::{HashMap, HashSet};
+use std::collections::{BTreeMap, BTreeSet};
+use std::io::Write;
+use std::panic::{catch_unwind, AssertUnwindSafe};
+
+pub struct Report {
+    pub prop: String,
+    pub evaluations: u64,
+    pub tuples: BTreeSet<String>,
+    pub fails: Vec<(String, String, String)>, // prop, what, replay text
+    pub samples: Vec<String>,
+    pub extra: BTreeMap<String, u64>,
+}
+impl Report {
+    fn new(prop: &str) -> Report {
+        Report { prop: prop.into(), evaluations: 0, tuples: BTreeSet::new(), fails: vec![], samples: vec![], extra: BTreeMap::new() }
+    }
+    fn fail(&mut self, prop: &str, what: String, replay: String) {
+        if self.fails.len() < 20 {
+            self.fails.push((prop.into(), what, replay));
+        }
+    }
+    fn bump(&mut self, k: &str, n: u64) {
+        *self.extra.entry(k.into()).or_insert(0) += n;
+    }
+}
+fn js(s: &str) -> String {
+    let mut o = String::from("\"");
+    for c in s.chars() {
+        match c {
+            '"' => o.push_str("\\\""),
+            '\\' => o.push_str("\\\\"),
+            '\n' => o.push_str("\\n"),
+            c if (c as u32) < 32 => o.push(' '),
+            c => o.push(c),
+        }
+    }
+    o.push('"');
+    o
+}
+fn arg<'a>(args: &'a [String], name: &str) -> Option<&'a str> {
+    args.iter().position(|a| a == name).and_then(|i| args.get(i + 1)).map(|s| s.as_str())
+}
+
+pub fn cmd_extra(args: &[String]) {
+    install_panic_hook();
+    let which = args.get(2).map(|s| s.as_str()).unwrap_or("");
+    let seed: u64 = arg(args, "--seed").and_then(|s| s.parse().ok()).unwrap_or(1);
+    let scale: u64 = arg(args, "--scale").and_then(|s| s.parse().ok()).unwrap_or(1);
+    let report = arg(args, "--report").unwrap_or("/dev/null").to_string();
+    let replays = arg(args, "--replays").unwrap_or("/tmp").to_string();
+    let prop = arg(args, "--prop").unwrap_or("").to_string();
+    let mut rep = Report::new(&prop);
+    match which {
+        "zst" => zst(&mut rep, scale),
+        "set" => sets(&mut rep, seed, scale),
+        "par" => par(&mut rep, seed, scale),
+        "serde" => serde_slice(&mut rep, seed, scale),
+        "fault" => fault(&mut rep, seed, scale),
+        _ => {
+            eprintln!("unknown extra slice {which}");
+            std::process::exit(2);
+        }
+    }
+    // write replays and the report
+    let mut fails_json = vec![];
+    for (i, (p, what, text)) in rep.fails.iter().enumerate() {
+        let path = format!("{replays}/{p}-{which}-{seed}-{i}.txt");
+        if let Ok(mut f) = std::fs::File::create(&path) {
+            let _ = writeln!(f, "# property {p}: {what}\n# slice extra/{which} seed {seed}\n{text}");
+        }
+        fails_json.push(format!("{{\"prop\":{},\"what\":{},\"replay\":{}}}", js(p), js(what), js(&path)));
+    }
+    let extra: Vec<String> = rep.extra.iter().map(|(k, v)| format!("{}:{}", js(k), v)).collect();
+    let samples: Vec<String> = rep.samples.iter().take(3).map(|s| js(s)).collect();
+    let out = format!(
+        "{{\"slice\":{},\"evaluations\":{},\"distinct_nontrivial\":{},\"fails\":[{}],\"samples\":[{}],\"detail\":{{{}}}}}",
+        js(which),
+        rep.evaluations,
+        rep.tuples.len(),
+        fails_json.join(","),
+        samples.join(","),
+        extra.join(",")
+    );
+    std::fs::write(&report, out).expect("write report");
+    println!("gharness extra {which}: evaluations={} distinct={} fails={}", rep.evaluations, rep.tuples.len(), rep.fails.len());
+}
+
+// ------------------------------------------------------------------------------------------------
+// zero-sized elements: exhaustive enumeration of short histories on HashMap<(), ()> / HashSet<()>
+fn zst(rep: &mut Report, scale: u64) {
+    const NOPS: usize = 14;
+    let names = ["insert", "remove", "reserve(1)", "reserve(10)", "shrink_to_fit", "retain(keep)", "retain(drop)", "replace_with(Some)", "replace_with(None)", "clear", "drain", "clone", "get/iter", "set-remove-roundtrip"];
+    let depth = if scale > 1 { 6 } else { 5 };
+    let total = (NOPS as u64).pow(depth as u32);
+    for code in 0..total {
+        let mut seq = vec![];
+        let mut c = code;
+        for _ in 0..depth {
+            seq.push((c % NOPS as u64) as usize);
+            c /= NOPS as u64;
+        }
+        let mut present = false;
+        let mut m: HashMap<(), (), VBuild> = HashMap::with_hasher(VBuild::default());
+        let r = catch_unwind(AssertUnwindSafe(|| {
+            for (i, op) in seq.iter().enumerate() {
+                match op {
+                    0 => {
+                        let r = m.insert((), ());
+                        assert_eq!(r.is_some(), present, "insert result");
+                        present = true;
+                    }
+                    1 => {
+                        let r = m.remove(&());
+                        assert_eq!(r.is_some(), present, "remove result");
+                        present = false;
+                    }
+                    2 => m.reserve(1),
+                    3 => m.reserve(10),
+                    4 => m.shrink_to_fit(),
+                    5 => m.retain(|_, _| true),
+                    6 => {
+                        m.retain(|_, _| false);
+                        present = false;
+                    }
+                    7 => {
+                        if let Entry::Occupied(o) = m.entry(()) {
+                            let _ = o.replace_entry_with(|_, _| Some(()));
+                        }
+                    }
+                    8 => {
+                        if let Entry::Occupied(o) = m.entry(()) {
+                            let _ = o.replace_entry_with(|_, _| None);
+                        }
+                        present = false;
+                    }
+                    9 => {
+                        m.clear();
+                        present = false;
+                    }
+                    10 => {
+                        let n = m.drain().count();
+                        assert_eq!(n, present as usize, "drain count");
+                        present = false;
+                    }
+                    11 => {
+                        let c2 = m.clone();
+                        assert_eq!(c2.len(), present as usize, "clone len");
+                        assert!(c2 == m, "clone eq");
+                    }
+                    12 => {
+                        assert_eq!(m.get(&()).is_some(), present, "get");
+                        assert_eq!(m.iter().count(), present as usize, "iter count");
+                        assert_eq!(m.contains_key(&()), present);
+                    }
+                    _ => {
+                        let mut s: HashSet<(), VBuild> = HashSet::with_hasher(VBuild::default());
+                        s.insert(());
+                        s.reserve(10);
+                        assert!(s.remove(&()), "set remove while a resize is pending");
+                        assert!(s.is_empty());
+                    }
+                }
+                assert_eq!(m.len(), present as usize, "len after step {i}");
+                assert!(m.capacity() >= m.len(), "capacity < len");
+                let st = m.verif_state();
+                if let Some((l, _, _, cur)) = st.old {
+                    assert_eq!(l, cur, "cursor count vs old table");
+                }
+            }
+        }));
+        rep.evaluations += 1;
+        if seq.iter().any(|o| *o == 2 || *o == 3) {
+            rep.tuples.insert(format!("{:?}", &seq[..3.min(seq.len())]));
+        }
+        if let Err(_) = r {
+            let msg = LAST_PANIC.with(|p| p.borrow().clone());
+            let text: Vec<&str> = seq.iter().map(|o| names[*o]).collect();
+            for p in ["C01", "C05", "C13"] {
+                rep.fail(p, format!("HashMap<(),()> history panicked or disagreed with the reference: {}", msg.lines().last().unwrap_or("")), format!("history on HashMap<(), ()>: {}", text.join(" ; ")));
+            }
+            if rep.fails.len() >= 6 {
+                break;
+            }
+        }
+        if rep.samples.is_empty() && code == total / 3 {
+            let text: Vec<&str> = seq.iter().map(|o| names[*o]).collect();
+            rep.samples.push(format!("HashMap<(),()>: {}", text.join(" ; ")));
+        }
+    }
+    rep.bump("depth", depth as u64);
+}
+
+// ------------------------------------------------------------------------------------------------
+// HashSet against BTreeSet
+type S = HashSet<Key, VBuild>;
+
+fn build_set(g: &mut Rng, hk: HKind, universe: u64, log: &mut Vec<String>) -> (S, BTreeSet<u64>) {
+    let mut s: S = if g.chance(1, 3) { S::with_capacity_and_hasher(g.below(40) as usize, VBuild { kind: hk, seed: g.below(100) }) } else { S::with_hasher(VBuild { kind: hk, seed: g.below(100) }) };
+    let mut r = BTreeSet::new();
+    let target = *g.pick(&[0u64, 1, 3, 4, 7, 8, 14, 15, 16, 28, 29, 33, 56, 60, 113, 120]);
+    log.push(format!("new; target {target}"));
+    let mut guard = 0;
+    while (r.len() as u64) < target && guard < 2000 {
+        guard += 1;
+        let k = g.below(universe);
+        s.insert(Key::new(k));
+        r.insert(k);
+        log.push(format!("insert {k}"));
+    }
+    // steer the phase
+    match g.below(6) {
+        0 => {
+            let n = g.below(200) as usize;
+            s.reserve(n);
+            log.push(format!("reserve {n}"));
+        }
+        1 => {
+            for _ in 0..g.below(6) {
+                let k = g.below(universe);
+                s.remove(&Q(k));
+                r.remove(&k);
+                log.push(format!("remove {k}"));
+            }
+        }
+        2 => {
+            // removals that hit the old table
+            let mut old = vec![];
+            s.verif_old_keys(8, |k| old.push(k.k()));
+            for k in old {
+                s.remove(&Q(k));
+                r.remove(&k);
+                log.push(format!("remove {k} (old table)"));
+            }
+        }
+        _ => {}
+    }
+    (s, r)
+}
+
+fn sets(rep: &mut Report, seed: u64, scale: u64) {
+    let rounds = 400 * scale;
+    for round in 0..rounds {
+        reset_ids();
+        let mut g = Rng::new(seed.wrapping_mul(7777).wrapping_add(round));
+        let hk = *g.pick(&[HKind::Mul, HKind::Low, HKind::Mul, HKind::Const]);
+        let universe = *g.pick(&[8u64, 40, 200]);
+        let mut log = vec![format!("hasher {:?}", hk)];
+        let mut log2 = vec![];
+        let (mut a, mut ra) = build_set(&mut g, hk, universe, &mut log);
+        let (b, rb) = build_set(&mut g, hk, universe, &mut log2);
+        log.push("-- second set".into());
+        log.extend(log2);
+        let pa = a.verif_state().old.is_some();
+        let pb = b.verif_state().old.is_some();
+        rep.tuples.insert(format!("phases {pa}/{pb} sizes {}/{} overlap {}", ra.len().min(3), rb.len().min(3), ra.intersection(&rb).count().min(2)));
+        let r = catch_unwind(AssertUnwindSafe(|| {
+            let mut problems: Vec<String> = vec![];
+            let chk = |name: &str, got: Vec<u64>, want: Vec<u64>, problems: &mut Vec<String>| {
+                let mut g2 = got.clone();
+                g2.sort_unstable();
+                let dup = g2.windows(2).any(|w| w[0] == w[1]);
+                if dup || g2 != want {
+                    problems.push(format!("{name}: got {} elements (duplicates: {dup}), mathematical result has {}", got.len(), want.len()));
+                }
+            };
+            chk("union", a.union(&b).map(|k| k.k()).collect(), ra.union(&rb).copied().collect(), &mut problems);
+            chk("union (swapped)", b.union(&a).map(|k| k.k()).collect(), ra.union(&rb).copied().collect(), &mut problems);
+            chk("intersection", a.intersection(&b).map(|k| k.k()).collect(), ra.intersection(&rb).copied().collect(), &mut problems);
+            chk("intersection (swapped)", b.intersection(&a).map(|k| k.k()).collect(), ra.intersection(&rb).copied().collect(), &mut problems);
+            chk("difference", a.difference(&b).map(|k| k.k()).collect(), ra.difference(&rb).copied().collect(), &mut problems);
+            chk("difference (swapped)", b.difference(&a).map(|k| k.k()).collect(), rb.difference(&ra).copied().collect(), &mut problems);
+            chk("symmetric_difference", a.symmetric_difference(&b).map(|k| k.k()).collect(), ra.symmetric_difference(&rb).copied().collect(), &mut problems);
+            chk("|", (&a | &b).iter().map(|k| k.k()).collect(), ra.union(&rb).copied().collect(), &mut problems);
+            chk("&", (&a & &b).iter().map(|k| k.k()).collect(), ra.intersection(&rb).copied().collect(), &mut problems);
+            chk("^", (&a ^ &b).iter().map(|k| k.k()).collect(), ra.symmetric_difference(&rb).copied().collect(), &mut problems);
+            chk("-", (&a - &b).iter().map(|k| k.k()).collect(), ra.difference(&rb).copied().collect(), &mut problems);
+            if a.is_subset(&b) != ra.is_subset(&rb) || b.is_subset(&a) != rb.is_subset(&ra) {
+                problems.push("is_subset".into());
+            }
+            if a.is_superset(&b) != ra.is_superset(&rb) || b.is_superset(&a) != rb.is_superset(&ra) {
+                problems.push("is_superset".into());
+            }
+            if a.is_disjoint(&b) != ra.is_disjoint(&rb) || b.is_disjoint(&a) != ra.is_disjoint(&rb) {
+                problems.push("is_disjoint".into());
+            }
+            if (a == b) != (ra == rb) || (b == a) != (ra == rb) {
+                problems.push("==".into());
+            }
+            // subset pairs: a and a ∩ b as a set
+            let inter: S = {
+                let mut s = S::with_hasher(VBuild { kind: hk, seed: 1 });
+                for k in ra.intersection(&rb) {
+                    s.insert(Key::new(*k));
+                }
+                s
+            };
+            if !inter.is_subset(&a) || !a.is_superset(&inter) || !inter.is_subset(&b) {
+                problems.push("subset of an intersection".into());
+            }
+            // history of single-set operations on `a`
+            for step in 0..60 {
+                let k = g.below(universe + 5);
+                match g.below(14) {
+                    0 | 1 => {
+                        if a.insert(Key::new(k)) != ra.insert(k) { problems.push(format!("insert {k} @{step}")); }
+                    }
+                    2 => {
+                        let got = a.replace(Key::new(k)).map(|x| x.k());
+                        let want = if ra.contains(&k) { Some(k) } else { None };
+                        ra.insert(k);
+                        if got != want { problems.push(format!("replace {k}")); }
+                    }
+                    3 => {
+                        if a.remove(&Q(k)) != ra.remove(&k) { problems.push(format!("remove {k}")); }
+                    }
+                    4 => {
+                        let got = a.take(&Q(k)).map(|x| x.k());
+                        let want = if ra.remove(&k) { Some(k) } else { None };
+                        if got != want { problems.push(format!("take {k}")); }
+                    }
+                    5 => {
+                        if a.get(&Q(k)).map(|x| x.k()) != ra.get(&k).copied() { problems.push(format!("get {k}")); }
+                    }
+                    6 => {
+                        let got = a.get_or_insert(Key::new(k)).k();
+                        ra.insert(k);
+                        if got != k { problems.push(format!("get_or_insert {k}")); }
+                    }
+                    7 => {
+                        let got = a.get_or_insert_with(&Q(k), |q| Key::new(q.0)).k();
+                        ra.insert(k);
+                        if got != k { problems.push(format!("get_or_insert_with {k}")); }
+                    }
+                    8 => {
+                        if a.contains(&Q(k)) != ra.contains(&k) { problems.push(format!("contains {k}")); }
+                    }
+                    9 => {
+                        let m = 2 + g.below(3);
+                        a.retain(|x| x.k() % m != 0);
+                        ra.retain(|x| x % m != 0);
+                    }
+                    10 => {
+                        let m = 2 + g.below(3);
+                        let mut got: Vec<u64> = a.drain_filter(|x| x.k() % m == 1).map(|x| x.k()).collect();
+                        got.sort_unstable();
+                        let want: Vec<u64> = ra.iter().copied().filter(|x| x % m == 1).collect();
+                        ra.retain(|x| x % m != 1);
+                        if got != want { problems.push("drain_filter".into()); }
+                    }
+                    11 => {
+                        let items: Vec<u64> = (0..g.below(10)).map(|_| g.below(universe)).collect();
+                        a.extend(items.iter().map(|k| Key::new(*k)));
+                        ra.extend(items);
+                    }
+                    12 => {
+                        if g.chance(1, 6) {
+                            let mut got: Vec<u64> = a.drain().map(|x| x.k()).collect();
+                            got.sort_unstable();
+                            let want: Vec<u64> = ra.iter().copied().collect();
+                            ra.clear();
+                            if got != want { problems.push("drain".into()); }
+                        } else if g.chance(1, 5) {
+                            a.clear();
+                            ra.clear();
+                        }
+                    }
+                    _ => {
+                        a.reserve(g.below(60) as usize);
+                    }
+                }
+                if a.len() != ra.len() || a.is_empty() != ra.is_empty() {
+                    problems.push(format!("len {} vs {} @{step}", a.len(), ra.len()));
+                }
+                let st = a.verif_state();
+                if let Some((l, _, _, cur)) = st.old {
+                    if l != cur { problems.push("cursor count".into()); }
+                }
+            }
+            let mut got: Vec<u64> = a.iter().map(|x| x.k()).collect();
+            got.sort_unstable();
+            if got != ra.iter().copied().collect::<Vec<_>>() {
+                problems.push("final contents".into());
+            }
+            problems
+        }));
+        rep.evaluations += 1;
+        let problems = match r {
+            Ok(p) => p,
+            Err(_) => vec![format!("panic: {}", LAST_PANIC.with(|p| p.borrow().lines().last().unwrap_or("").to_string()))],
+        };
+        let an = take_anomalies();
+        if !problems.is_empty() || !an.is_empty() {
+            rep.fail("C13", format!("{} {}", problems.join("; "), an.join("; ")), log.join("\n"));
+        }
+        if rep.samples.is_empty() {
+            rep.samples.push(log.iter().take(30).cloned().collect::<Vec<_>>().join(" ; "));
+        }
+        drop(a);
+        drop(b);
+    }
+}
+
+// ------------------------------------------------------------------------------------------------
+// rayon
+fn par(rep: &mut Report, seed: u64, scale: u64) {
+    use rayon::prelude::*;
+    use std::sync::atomic::{AtomicU32, Ordering};
+    type PM = HashMap<u64, u64, VBuild>;
+    type PS = HashSet<u64, VBuild>;
+    let pools: Vec<rayon::ThreadPool> = [1usize, 2, 3, 4, 8, 16].iter().map(|n| rayon::ThreadPoolBuilder::new().num_threads(*n).build().unwrap()).collect();
+    let rounds = 40 * scale;
+    for round in 0..rounds {
+        let mut g = Rng::new(seed.wrapping_mul(9091).wrapping_add(round));
+        let hk = *g.pick(&[HKind::Mul, HKind::Low, HKind::Mul]);
+        let target = *g.pick(&[0u64, 1, 7, 14, 15, 20, 28, 29, 40, 57, 100, 113, 130, 300, 460, 1000]);
+        let mut m: PM = PM::with_hasher(VBuild { kind: hk, seed: g.below(50) });
+        let mut log = vec![format!("hasher {:?}", hk)];
+        for i in 0..target {
+            m.insert(i * 3, i);
+        }
+        log.push(format!("insert 0,3,..  ({target} keys)"));
+        match g.below(4) {
+            0 => {
+                let n = g.below(2000) as usize;
+                m.reserve(n);
+                log.push(format!("reserve {n}"));
+            }
+            1 => {
+                for i in 0..g.below(10) {
+                    m.remove(&(i * 6));
+                }
+                log.push("remove a few".into());
+            }
+            _ => {}
+        }
+        let split = m.verif_state().old.is_some();
+        let seq: BTreeMap<u64, u64> = m.iter().map(|(k, v)| (*k, *v)).collect();
+        let maxk = seq.keys().max().copied().unwrap_or(0) as usize + 1;
+        for (pi, pool) in pools.iter().enumerate() {
+            for rep_i in 0..3 {
+                let counts: Vec<AtomicU32> = (0..maxk).map(|_| AtomicU32::new(0)).collect();
+                let mut problems: Vec<String> = vec![];
+                let r = catch_unwind(AssertUnwindSafe(|| {
+                    pool.install(|| {
+                        m.par_iter().for_each(|(k, v)| {
+                            counts[*k as usize].fetch_add(1, Ordering::Relaxed);
+                            assert_eq!(seq.get(k), Some(v));
+                        });
+                    });
+                    let bad = (0..maxk).filter(|k| counts[*k].load(Ordering::Relaxed) != seq.contains_key(&(*k as u64)) as u32).count();
+                    if bad > 0 {
+                        problems.push(format!("par_iter: {bad} keys not visited exactly once"));
+                    }
+                    let mut ks: Vec<u64> = pool.install(|| m.par_keys().copied().collect());
+                    ks.sort_unstable();
+                    if ks != seq.keys().copied().collect::<Vec<_>>() {
+                        problems.push("par_keys".into());
+                    }
+                    let mut vs: Vec<u64> = pool.install(|| m.par_values().copied().collect());
+                    vs.sort_unstable();
+                    let mut wv: Vec<u64> = seq.values().copied().collect();
+                    wv.sort_unstable();
+                    if vs != wv {
+                        problems.push("par_values".into());
+                    }
+                    let mut m2 = m.clone();
+                    pool.install(|| m2.par_iter_mut().for_each(|(_, v)| *v += 1));
+                    pool.install(|| m2.par_values_mut().for_each(|v| *v += 1));
+                    if m2.len() != seq.len() || !seq.iter().all(|(k, v)| m2.get(k) == Some(&(v + 2))) {
+                        problems.push("par_iter_mut / par_values_mut did not touch each element exactly once".into());
+                    }
+                    // par_extend / from_par_iter
+                    let pairs: Vec<(u64, u64)> = (0..(g.below(300))).map(|i| (i * 2, i)).collect();
+                    let mut e1 = m.clone();
+                    let mut e2 = m.clone();
+                    pool.install(|| e1.par_extend(pairs.clone()));
+                    e2.extend(pairs.clone());
+                    if e1 != e2 {
+                        problems.push("par_extend differs from extend".into());
+                    }
+                    let f1: PM = pool.install(|| pairs.clone().into_par_iter().collect());
+                    let f2: PM = pairs.iter().copied().collect();
+                    if f1 != f2 {
+                        problems.push("from_par_iter differs from from_iter".into());
+                    }
+                    // par_eq
+                    let mut other = m.clone();
+                    if pool.install(|| m.par_eq(&other)) != (m == other) {
+                        problems.push("par_eq (equal)".into());
+                    }
+                    if let Some(k) = seq.keys().next() {
+                        *other.get_mut(k).unwrap() += 1;
+                        if pool.install(|| m.par_eq(&other)) != (m == other) {
+                            problems.push("par_eq (one value differs)".into());
+                        }
+                    }
+                    // sets
+                    let sa: PS = {
+                        let mut s = PS::with_hasher(VBuild { kind: hk, seed: 3 });
+                        for k in seq.keys() {
+                            s.insert(*k);
+                        }
+                        if split { s.reserve(seq.len() * 2 + 10); }
+                        s
+                    };
+                    let sb: PS = {
+                        let mut s = PS::with_hasher(VBuild { kind: hk, seed: 4 });
+                        for k in seq.keys().filter(|k| *k % 2 == 0) {
+                            s.insert(*k);
+                        }
+                        for i in 0..10 { s.insert(10_000 + i); }
+                        s
+                    };
+                    let cmp = |name: &str, mut got: Vec<u64>, mut want: Vec<u64>, problems: &mut Vec<String>| {
+                        got.sort_unstable();
+                        want.sort_unstable();
+                        if got != want {
+                            problems.push(format!("{name}: {} vs {}", got.len(), want.len()));
+                        }
+                    };
+                    cmp("par_union", pool.install(|| sa.par_union(&sb).copied().collect()), sa.union(&sb).copied().collect(), &mut problems);
+                    cmp("par_intersection", pool.install(|| sa.par_intersection(&sb).copied().collect()), sa.intersection(&sb).copied().collect(), &mut problems);
+                    cmp("par_difference", pool.install(|| sa.par_difference(&sb).copied().collect()), sa.difference(&sb).copied().collect(), &mut problems);
+                    cmp("par_symmetric_difference", pool.install(|| sa.par_symmetric_difference(&sb).copied().collect()), sa.symmetric_difference(&sb).copied().collect(), &mut problems);
+                    cmp("set par_iter", pool.install(|| sa.par_iter().copied().collect()), sa.iter().copied().collect(), &mut problems);
+                    if pool.install(|| sa.par_is_subset(&sb)) != sa.is_subset(&sb) || pool.install(|| sb.par_is_subset(&sa)) != sb.is_subset(&sa) {
+                        problems.push("par_is_subset".into());
+                    }
+                    if pool.install(|| sa.par_is_superset(&sb)) != sa.is_superset(&sb) {
+                        problems.push("par_is_superset".into());
+                    }
+                    if pool.install(|| sa.par_is_disjoint(&sb)) != sa.is_disjoint(&sb) {
+                        problems.push("par_is_disjoint".into());
+                    }
+                    if pool.install(|| sa.par_eq(&sb)) != (sa == sb) {
+                        problems.push("set par_eq".into());
+                    }
+                }));
+                rep.evaluations += 1;
+                if r.is_err() {
+                    problems.push(format!("panic: {}", LAST_PANIC.with(|p| p.borrow().lines().last().unwrap_or("").to_string())));
+                }
+                rep.tuples.insert(format!("pool{pi} split{split} size{}", (target as f64).log2() as u32));
+                if !problems.is_empty() {
+                    rep.fail("C15", format!("threads={} run={rep_i}: {}", [1, 2, 3, 4, 8, 16][pi], problems.join("; ")), log.join("\n"));
+                }
+            }
+        }
+        if rep.samples.is_empty() {
+            rep.samples.push(log.join(" ; "));
+        }
+    }
+    rep.bump("pools", 6);
+}
+
+// ------------------------------------------------------------------------------------------------
+// serde
+mod mini_de {
+    //! a deserializer over a plain sequence of u64 (or u64 pairs), enough for `deserialize_in_place`
+    use serde::de::{self, DeserializeSeed, Deserializer, MapAccess, SeqAccess, Visitor};
+    #[derive(Debug)]
+    pub struct E(pub String);
+    impl std::fmt::Display for E {
+        fn fmt(&self, f: &mut std::fmt::Formatter<'_>) -> std::fmt::Result {
+            write!(f, "{}", self.0)
+        }
+    }
+    impl std::error::Error for E {}
+    impl de::Error for E {
+        fn custom<T: std::fmt::Display>(m: T) -> Self {
+            E(m.to_string())
+        }
+    }
+    pub struct U(pub u64);
+    impl<'de> Deserializer<'de> for U {
+        type Error = E;
+        fn deserialize_any<V: Visitor<'de>>(self, v: V) -> Result<V::Value, E> {
+            v.visit_u64(self.0)
+        }
+        serde::forward_to_deserialize_any! { bool i8 i16 i32 i64 i128 u8 u16 u32 u64 u128 f32 f64 char str string bytes byte_buf option unit unit_struct newtype_struct seq tuple tuple_struct map struct enum identifier ignored_any }
+    }
+    pub struct Seq {
+        pub items: Vec<u64>,
+        pub hint: Option<usize>,
+    }
+    struct SA {
+        it: std::vec::IntoIter<u64>,
+        hint: Option<usize>,
+    }
+    impl<'de> SeqAccess<'de> for SA {
+        type Error = E;
+        fn next_element_seed<T: DeserializeSeed<'de>>(&mut self, seed: T) -> Result<Option<T::Value>, E> {
+            match self.it.next() {
+                Some(x) => seed.deserialize(U(x)).map(Some),
+                None => Ok(None),
+            }
+        }
+        fn size_hint(&self) -> Option<usize> {
+            self.hint
+        }
+    }
+    impl<'de> Deserializer<'de> for Seq {
+        type Error = E;
+        fn deserialize_any<V: Visitor<'de>>(self, v: V) -> Result<V::Value, E> {
+            v.visit_seq(SA { it: self.items.into_iter(), hint: self.hint })
+        }
+        serde::forward_to_deserialize_any! { bool i8 i16 i32 i64 i128 u8 u16 u32 u64 u128 f32 f64 char str string bytes byte_buf option unit unit_struct newtype_struct seq tuple tuple_struct map struct enum identifier ignored_any }
+    }
+    pub struct Map {
+        pub items: Vec<(u64, u64)>,
+        pub hint: Option<usize>,
+    }
+    struct MA {
+        it: std::vec::IntoIter<(u64, u64)>,
+        cur: Option<u64>,
+        hint: Option<usize>,
+    }
+    impl<'de> MapAccess<'de> for MA {
+        type Error = E;
+        fn next_key_seed<K: DeserializeSeed<'de>>(&mut self, seed: K) -> Result<Option<K::Value>, E> {
+            match self.it.next() {
+                Some((k, v)) => {
+                    self.cur = Some(v);
+                    seed.deserialize(U(k)).map(Some)
+                }
+                None => Ok(None),
+            }
+        }
+        fn next_value_seed<V: DeserializeSeed<'de>>(&mut self, seed: V) -> Result<V::Value, E> {
+            seed.deserialize(U(self.cur.take().unwrap()))
+        }
+        fn size_hint(&self) -> Option<usize> {
+            self.hint
+        }
+    }
+    impl<'de> Deserializer<'de> for Map {
+        type Error = E;
+        fn deserialize_any<V: Visitor<'de>>(self, v: V) -> Result<V::Value, E> {
+            v.visit_map(MA { it: self.items.into_iter(), cur: None, hint: self.hint })
+        }
+        serde::forward_to_deserialize_any! { bool i8 i16 i32 i64 i128 u8 u16 u32 u64 u128 f32 f64 char str string bytes byte_buf option unit unit_struct newtype_struct seq tuple tuple_struct map struct enum identifier ignored_any }
+    }
+}
+
+fn serde_slice(rep: &mut Report, seed: u64, scale: u64) {
+    use serde::Deserialize;
+    use serde_test::Token;
+    type PM = HashMap<u64, u64, VBuild>;
+    type PS = HashSet<u64, VBuild>;
+    let rounds = 300 * scale;
+    for round in 0..rounds {
+        let mut g = Rng::new(seed.wrapping_mul(4241).wrapping_add(round));
+        let hk = *g.pick(&[HKind::Mul, HKind::Low]);
+        let mk = |g: &mut Rng, log: &mut Vec<String>| -> PM {
+            let mut m = PM::with_hasher(VBuild { kind: hk, seed: 0 });
+            let target = *g.pick(&[0u64, 1, 3, 7, 14, 15, 16, 28, 29, 40, 57, 100, 115]);
+            for i in 0..target {
+                m.insert(i * 5 + g.below(3), i);
+            }
+            log.push(format!("{target} inserts"));
+            match g.below(4) {
+                0 => {
+                    let n = g.below(300) as usize;
+                    m.reserve(n);
+                    log.push(format!("reserve {n}"));
+                }
+                1 => {
+                    let ks: Vec<u64> = m.keys().copied().take(5).collect();
+                    for k in ks {
+                        m.remove(&k);
+                    }
+                    log.push("5 removals".into());
+                }
+                _ => {}
+            }
+            m
+        };
+        let mut log = vec![];
+        let m = mk(&mut g, &mut log);
+        let split = m.verif_state().old.is_some();
+        rep.tuples.insert(format!("split{split} len{}", m.len().min(4)));
+        let mut problems: Vec<String> = vec![];
+        let r = catch_unwind(AssertUnwindSafe(|| {
+            // serialization: exact length, then each element once in iteration order
+            let mut tokens = vec![Token::Map { len: Some(m.len()) }];
+            for (k, v) in m.iter() {
+                tokens.push(Token::U64(*k));
+                tokens.push(Token::U64(*v));
+            }
+            tokens.push(Token::MapEnd);
+            serde_test::assert_ser_tokens(&m, &tokens);
+            // round trip through Deserialize (and serde_test's own deserialize_in_place pass)
+            serde_test::assert_de_tokens(&m, &tokens);
+            let s: PS = {
+                let mut s = PS::with_hasher(VBuild { kind: hk, seed: 0 });
+                for k in m.keys() {
+                    s.insert(*k);
+                }
+                if split {
+                    s.reserve(2 * s.len() + 8);
+                }
+                s
+            };
+            let mut stok = vec![Token::Seq { len: Some(s.len()) }];
+            for k in s.iter() {
+                stok.push(Token::U64(*k));
+            }
+            stok.push(Token::SeqEnd);
+            serde_test::assert_ser_tokens(&s, &stok);
+            serde_test::assert_de_tokens(&s, &stok);
+        }));
+        if r.is_err() {
+            problems.push(format!("serialize/deserialize tokens: {}", LAST_PANIC.with(|p| p.borrow().lines().last().unwrap_or("").to_string())));
+        }
+        // own deserializer: lying and honest size hints, arbitrary destination for deserialize_in_place
+        let items: Vec<(u64, u64)> = m.iter().map(|(k, v)| (*k, *v)).collect();
+        for hint in [None, Some(items.len()), Some(0), Some(1 << 40)] {
+            let r = catch_unwind(AssertUnwindSafe(|| {
+                let d: PM = PM::deserialize(mini_de::Map { items: items.clone(), hint }).unwrap();
+                assert!(d == m, "deserialized map differs");
+                let keys: Vec<u64> = items.iter().map(|x| x.0).collect();
+                let mut log2 = vec![];
+                let dst_m = mk(&mut g, &mut log2);
+                let mut dst: PS = PS::with_hasher(VBuild { kind: hk, seed: 9 });
+                for k in dst_m.keys() {
+                    dst.insert(*k + 1_000_000);
+                }
+                if g.chance(1, 2) {
+                    dst.reserve(2 * dst.len() + 5);
+                }
+                PS::deserialize_in_place(mini_de::Seq { items: keys.clone(), hint }, &mut dst).unwrap();
+                let mut got: Vec<u64> = dst.iter().copied().collect();
+                got.sort_unstable();
+                let mut want = keys.clone();
+                want.sort_unstable();
+                want.dedup();
+                assert_eq!(got, want, "deserialize_in_place did not replace the previous contents exactly");
+                let d2: PS = PS::deserialize(mini_de::Seq { items: keys, hint }).unwrap();
+                assert_eq!(d2.len(), want.len());
+            }));
+            rep.evaluations += 1;
+            if r.is_err() {
+                problems.push(format!("hint {hint:?}: {}", LAST_PANIC.with(|p| p.borrow().lines().last().unwrap_or("").to_string())));
+            }
+        }
+        if !problems.is_empty() {
+            rep.fail("C16", problems.join("; "), log.join("\n"));
+        }
+        if rep.samples.is_empty() {
+            rep.samples.push(log.join(" ; "));
+        }
+    }
+}
+
+// ------------------------------------------------------------------------------------------------
+// fault injection: a panic at each individual invocation of each user callback of each operation
+type FM = HashMap<Key, Val, VBuild>;
+
+fn fbuild(g: &mut Rng, hk: HKind, log: &mut Vec<String>) -> FM {
+    let mut m: FM = FM::with_hasher(VBuild { kind: hk, seed: g.below(50) });
+    let n = *g.pick(&[3u64, 4, 7, 8, 14, 15, 16, 20, 28, 29, 33, 40, 57, 60]);
+    for i in 0..n {
+        m.insert(Key::new(i), Val::new(i + 100));
+    }
+    log.push(format!("{n} inserts"));
+    for _ in 0..g.below(4) {
+        let k = g.below(n);
+        m.remove(&Q(k));
+        log.push(format!("remove {k}"));
+    }
+    if g.chance(1, 4) {
+        let r = g.below(100) as usize;
+        m.reserve(r);
+        log.push(format!("reserve {r}"));
+    }
+    m
+}
+fn snapshot(m: &FM) -> BTreeMap<u64, (u64, u64)> {
+    m.iter().map(|(k, v)| (k.k(), (v.v, v.id))).collect()
+}
+fn consistent(m: &FM) -> Result<(), String> {
+    let mut seen = BTreeSet::new();
+    let mut n = 0;
+    for (k, v) in m.iter() {
+        k.check("iter");
+        v.check("iter");
+        if !seen.insert(k.k()) {
+            return Err(format!("key {} iterated twice", k.k()));
+        }
+        n += 1;
+    }
+    if n != m.len() {
+        return Err(format!("len() = {} but {} entries iterated", m.len(), n));
+    }
+    let snap = snapshot(m);
+    for (k, (v, id)) in &snap {
+        match m.get(&Q(*k)) {
+            Some(x) if x.v == *v && x.id == *id => {}
+            _ => return Err(format!("iterated key {k} not found by get")),
+        }
+    }
+    let st = m.verif_state();
+    if let Some((l, _, _, cur)) = st.old {
+        if l != cur {
+            return Err(format!("cached iterator expects {cur} elements, old table holds {l}"));
+        }
+    }
+    if m.capacity() < m.len() {
+        return Err("capacity < len".into());
+    }
+    Ok(())
+}
+
+fn fault(rep: &mut Report, seed: u64, scale: u64) {
+    let opnames = ["insert", "remove", "retain", "drain_filter", "or_insert_with", "and_modify", "replace_entry_with", "reserve", "shrink_to_fit", "clone", "clone_from", "extend", "raw and_replace_entry_with", "get", "eq", "entry insert"];
+    let states = 12 * scale;
+    for st_i in 0..states {
+        for op in 0..opnames.len() {
+            for kinds in [HASH, EQ, CLONE, CLOSURE, HASH | EQ | CLONE | CLOSURE] {
+                let mut idx = 0i64;
+                loop {
+                    reset_ids();
+                    let mut g = Rng::new(seed.wrapping_mul(31337).wrapping_add(st_i * 17 + 5));
+                    let hk = *g.pick(&[HKind::Mul, HKind::Low, HKind::Mul]);
+                    let mut log = vec![format!("hasher {:?}", hk)];
+                    let mut m = fbuild(&mut g, hk, &mut log);
+                    let mut log_src = vec![];
+                    let src = fbuild(&mut g, hk, &mut log_src);
+                    let before = snapshot(&m);
+                    let before_src = snapshot(&src);
+                    let k = g.below(70);
+                    let phase = m.verif_state().old.is_some();
+                    log.push(format!("then {} (key {k}) with a panic injected at callback #{idx} of kinds {kinds:#x}", opnames[op]));
+                    arm_fuse(idx, kinds);
+                    let r = catch_unwind(AssertUnwindSafe(|| match op {
+                        0 => {
+                            m.insert(Key::new(k), Val::new(1));
+                        }
+                        1 => {
+                            m.remove(&Q(k));
+                        }
+                        2 => m.retain(|k, v| {
+                            tick(CLOSURE);
+                            v.v += 1;
+                            k.k() % 3 != 0
+                        }),
+                        3 => {
+                            let d = m.drain_filter(|k, _| {
+                                tick(CLOSURE);
+                                k.k() % 2 == 0
+                            });
+                            drop(d);
+                        }
+                        4 => {
+                            m.entry(Key::new(k)).or_insert_with(|| {
+                                tick(CLOSURE);
+                                Val::new(2)
+                            });
+                        }
+                        5 => {
+                            let _ = m.entry(Key::new(k)).and_modify(|v| {
+                                tick(CLOSURE);
+                                v.v += 1;
+                            });
+                        }
+                        6 => {
+                            if let Entry::Occupied(o) = m.entry(Key::new(k)) {
+                                let _ = o.replace_entry_with(|_, v| {
+                                    tick(CLOSURE);
+                                    if v.v % 2 == 0 { Some(v) } else { None }
+                                });
+                            }
+                        }
+                        7 => m.reserve(k as usize * 3),
+                        8 => m.shrink_to_fit(),
+                        9 => {
+                            let c = m.clone();
+                            drop(c);
+                        }
+                        10 => m.clone_from(&src),
+                        11 => m.extend((0..10).map(|i| (Key::new(i + k), Val::new(3)))),
+                        12 => {
+                            let _ = m.raw_entry_mut().from_key(&Q(k)).and_replace_entry_with(|_, v| {
+                                tick(CLOSURE);
+                                if v.v % 2 == 1 { Some(v) } else { None }
+                            });
+                        }
+                        13 => {
+                            let _ = m.get(&Q(k));
+                        }
+                        14 => {
+                            let _ = m == src;
+                        }
+                        _ => {
+                            let _ = m.entry(Key::new(k)).insert(Val::new(4));
+                        }
+                    }));
+                    let fired = fuse_fired();
+                    disarm_fuse();
+                    rep.evaluations += 1;
+                    let mut problems: Vec<String> = vec![];
+                    if let Err(_) = &r {
+                        rep.bump("panics_injected", 1);
+                        if !fired {
+                            problems.push(format!("a panic that was not the injected one: {}", LAST_PANIC.with(|p| p.borrow().lines().last().unwrap_or("").to_string())));
+                        }
+                        rep.tuples.insert(format!("{} kinds{kinds} split{phase}", opnames[op]));
+                    }
+                    if let Err(e) = consistent(&m) {
+                        problems.push(format!("after the caught panic the map is inconsistent: {e}"));
+                    }
+                    if let Err(e) = consistent(&src) {
+                        problems.push(format!("the source map is inconsistent: {e}"));
+                    }
+                    if snapshot(&src) != before_src {
+                        problems.push("the source of clone/clone_from/eq changed".into());
+                    }
+                    if r.is_err() && op != 10 {
+                        let after = snapshot(&m);
+                        for (k2, (v2, _)) in &after {
+                            match before.get(k2) {
+                                Some((b, _)) => {
+                                    if !(*v2 == *b || *v2 == *b + 1 || *v2 == 1 || *v2 == 3 || *v2 == 4) {
+                                        problems.push(format!("key {k2} holds value {v2} it never legitimately had"));
+                                    }
+                                }
+                                None => {
+                                    if !(*v2 == 1 || *v2 == 2 || *v2 == 3 || *v2 == 4) {
+                                        problems.push(format!("a key appeared ({k2}) with an illegitimate value"));
+                                    }
+                                }
+                            }
+                        }
+                        let lost = before.keys().filter(|k| !after.contains_key(k)).count();
+                        // documented losses: hash panic may drop elements being relocated (ops that move
+                        // elements); eq / closure panic loses at most the element handed to the closure
+                        let may_relocate = matches!(op, 0 | 4 | 7 | 8 | 11 | 15);
+                        let removes_anyway = matches!(op, 1 | 2 | 3 | 6 | 12);
+                        if !may_relocate && !removes_anyway && lost > 0 {
+                            problems.push(format!("{lost} elements lost by an operation that relocates nothing"));
+                        }
+                        if matches!(op, 6 | 12) && lost > 1 {
+                            problems.push(format!("{lost} elements lost, at most the one handed to the closure may be"));
+                        }
+                    }
+                    // later operations behave normally
+                    let r2 = catch_unwind(AssertUnwindSafe(|| {
+                        for i in 0..40 {
+                            m.insert(Key::new(1000 + i), Val::new(0));
+                        }
+                        for i in 0..10 {
+                            m.remove(&Q(1000 + i));
+                        }
+                    }));
+                    if r2.is_err() {
+                        problems.push(format!("later operations panicked: {}", LAST_PANIC.with(|p| p.borrow().lines().last().unwrap_or("").to_string())));
+                    } else if let Err(e) = consistent(&m) {
+                        problems.push(format!("after later operations: {e}"));
+                    }
+                    let leaked_ok = op == 10 && r.is_err();
+                    drop(m);
+                    drop(src);
+                    let an = take_anomalies();
+                    if !an.is_empty() {
+                        problems.push(an.join("; "));
+                    }
+                    if live_count() != 0 && !leaked_ok {
+                        problems.push(format!("{} objects leaked", live_count()));
+                    }
+                    if !problems.is_empty() {
+                        log.push("-- second map (source):".into());
+                        log.extend(log_src);
+                        rep.fail("C07", problems.join("; "), log.join("\n"));
+                    }
+                    if rep.samples.len() < 2 && r.is_err() {
+                        rep.samples.push(log.join(" ; "));
+                    }
+                    if r.is_ok() || idx > 400 || rep.fails.len() >= 20 {
+                        break;
+                    }
+                    idx += 1;
+                }
+            }
+        }
+    }
+    let _ = alloc::live_tables();
 }
